@@ -18,6 +18,7 @@ func init() {
 			"R2 flags reach the decoder: UseNumber() / DisallowUnknownFields() are called on the decoding Decoder exactly on the true side of the codec field that the constructor fills from its first / second parameter; " +
 			"R3 the text codec applies no transformation and hands out no alias of the upstream buffer: the delivered string is produced by a copying conversion (strings.Builder / string(bytes)), no content-changing strings/bytes/unicode function and no unsafe conversion lies on the flow; outbound strings go through strings.NewReader unchanged; " +
 			"R4 conversion failures raise (MustToBytes/MustToReader, shared with C14-R4); R5 the literal null is not an object: the delivery is dominated by a non-nil guard on the decoded map. " +
+			"ALSO: each JSON flag is applied under its own field alone (not only while the other flag is off); imports are listed in RULES.md. " +
 			"DOES NOT DECIDE: equality of decoded and encoded objects, trailing garbage after a valid object, interaction with a frame codec underneath.",
 		Assumptions: []string{"encoding/json Decoder semantics"},
 		Run:         runC16,
